@@ -270,6 +270,23 @@ func runC18(seed int64, tier string, outDir string) *result {
 			}
 		}
 
+		// an entry made from a template that already carries sealed links (a copy of a stored entry,
+		// re-parented): what is stored seals the NEW links, not the template's
+		if n%5 == 0 && len(links) > 0 {
+			tpl := oe.Copy().(*entry.Entry)
+			tpl.Payload = append([]byte("tpl-"), p...)
+			tpl.Next = []cid.Cid{c08Cid(rng, false), c08Cid(rng, true)}
+			tpl.Refs = []cid.Cid{c08Cid(rng, false)}
+			tpl.Sig = nil
+			tpl.Hash = cid.Undef
+			if tout, err := entry.CreateEntryWithIO(ctx, api, id, tpl, nil, lio); err == nil {
+				te := tout.(*entry.Entry)
+				var tl []cid.Cid
+				tl = append(append(tl, te.Next...), te.Refs...)
+				checkBlock("from-template", te, tl)
+			}
+		}
+
 		// clear-part independence: the same entry with other links
 		if n%4 == 0 {
 			in2 := &entry.Entry{Payload: p, LogID: "c18", Next: []cid.Cid{c08Cid(rng, false), c08Cid(rng, true)}, Refs: []cid.Cid{c08Cid(rng, false)}, Clock: in.Clock}
